@@ -80,10 +80,10 @@ func (s *script) add(op proto.Op) int {
 	return op.ID
 }
 
-func (s *script) k(kind string) int             { return s.add(proto.Op{K: kind}) }
-func (s *script) sql(q string) int              { return s.add(proto.Op{K: "sql", SQL: proto.Text(q)}) }
-func (s *script) query(q string) int            { return s.add(proto.Op{K: "query", SQL: proto.Text(q)}) }
-func (s *script) stmt(st *proto.Stmt) int       { return s.add(proto.Op{K: "stmt", Stmt: st}) }
+func (s *script) k(kind string) int       { return s.add(proto.Op{K: kind}) }
+func (s *script) sql(q string) int        { return s.add(proto.Op{K: "sql", SQL: proto.Text(q)}) }
+func (s *script) query(q string) int      { return s.add(proto.Op{K: "query", SQL: proto.Text(q)}) }
+func (s *script) stmt(st *proto.Stmt) int { return s.add(proto.Op{K: "stmt", Stmt: st}) }
 func (s *script) cfg(noAuto bool, cap int) int {
 	n := 0
 	if noAuto {
